@@ -4,6 +4,7 @@ import (
 	"bytes"
 	"encoding/json"
 	"fmt"
+	"os"
 	"path/filepath"
 	"sort"
 	"strings"
@@ -126,6 +127,30 @@ func c07Class(s *rulegen.Spec) string {
 	return "multi"
 }
 
+// c07InDomain: the statement excludes watch-shaped rules that disagree with the filesystem (path= naming a
+// directory, dir= naming something that is not an existing directory), because the -w form re-derives the
+// kind by stat. A rule can only be watch-shaped when all its filters are path/dir/perm/key.
+func c07InDomain(s *rulegen.Spec) bool {
+	if s.Watch {
+		return true
+	}
+	for _, f := range s.Filters {
+		if f.LHS != "path" && f.LHS != "dir" && f.LHS != "perm" && f.LHS != "key" {
+			return true
+		}
+	}
+	for _, f := range s.Filters {
+		st, err := os.Stat(f.RHS)
+		if f.LHS == "path" && err == nil && st.IsDir() {
+			return false
+		}
+		if f.LHS == "dir" && (err != nil || !st.IsDir()) {
+			return false
+		}
+	}
+	return true
+}
+
 func c07One(c *mon.Ctx, s *rulegen.Spec) {
 	var w, w2 rule.WireFormat
 	var text, text2 string
@@ -186,6 +211,10 @@ func c07Run(c *mon.Ctx) {
 	ev := c.Counter("evaluations")
 	nt := c.DistinctSet("nontrivial")
 	run := func(s *rulegen.Spec) {
+		if !c07InDomain(s) {
+			c.Add("requests_outside_the_domain_skipped", 1)
+			return
+		}
 		c07One(c, s)
 		ev.Add(1)
 		nt.AddString(s.Text())
@@ -308,6 +337,10 @@ func init() {
 				return
 			}
 			fmt.Println("replay: request:", s.Text())
+			if !c07InDomain(&s) {
+				fmt.Println("replay: the request is outside the property's domain on this filesystem (a watch-shaped rule whose path=/dir= disagrees with what stat says): not a violation")
+				return
+			}
 			if w, err := rule.Build(s.Rule()); err == nil {
 				t, err := rule.ToCommandLine(w, false)
 				fmt.Printf("replay: printed: %q err=%v\n", t, err)
